@@ -83,7 +83,7 @@ func vfC17Run(t *testing.T, p vfC17Plan) vk.Result {
 		return vk.Result{Discard: true}
 	}
 	for _, g := range p.Gets {
-		if g <= 0 {
+		if g <= 0 || g > 1<<20 { // larger messages only lengthen the history (one replenish per 16 KiB frame)
 			return vk.Result{Discard: true}
 		}
 	}
